@@ -26,11 +26,23 @@ class PreprocessRecorder(object):
         from django_evolution.mutators import AppMutator
         rec = self
         self._orig = AppMutator._preprocess_mutations
+        # the optimiser works on copies of the definitions: follow them
+        self._orig_copy = getattr(AppMutator, '_copy_mutation', None)
+        origin = {}
+        keep = []
+
+        if self._orig_copy is not None:
+            def copying(am, mutation):
+                new = rec._orig_copy(am, mutation)
+                origin[id(new)] = id(mutation)
+                keep.append(new)
+                return new
+            AppMutator._copy_mutation = copying
 
         def wrapped(am, mutations):
             before = [(id(m), str(m)) for m in mutations]
             out = rec._orig(am, mutations)
-            after = [(id(m), str(m)) for m in out]
+            after = [(origin.get(id(m), id(m)), str(m)) for m in out]
             rec.calls.append({'in': before, 'out': after})
             return out
         AppMutator._preprocess_mutations = wrapped
@@ -39,6 +51,8 @@ class PreprocessRecorder(object):
     def __exit__(self, *a):
         from django_evolution.mutators import AppMutator
         AppMutator._preprocess_mutations = self._orig
+        if self._orig_copy is not None:
+            AppMutator._copy_mutation = self._orig_copy
 
     def rules(self):
         """Coarse names of what the optimiser did."""
@@ -112,7 +126,7 @@ def canonical_rebuilds(trace_list):
     return final
 
 
-def run_paths(case, app='app1', with_b2=True):
+def run_paths(case, app='app1', with_b2=True, with_p=False):
     """-> observations dict (JSON-able apart from 'sigs')."""
     spec0, edits, rows = case['spec0'], case['edits'], case.get('rows')
     history = [spec0]
@@ -193,6 +207,24 @@ def run_paths(case, app='app1', with_b2=True):
             if rC['ok']:
                 obs['b2_snap'] = labC.snapshot()
                 obs['b2_sig'] = labC.psig
+    if with_p:
+        # ---- path P: the real Evolver task pipeline over evolutions that
+        # are discovered the normal way (fresh mutation objects)
+        from . import pipelab
+        S.build_models(history[-1])
+        pm = [E.to_mutation(history[i], e) for i, e in enumerate(edits)]
+        rP = pipelab.run(spec0, rows, history[-1], {app: pm})
+        obs['p_error'] = rP['error']
+        obs['p_required'] = rP.get('evolution_required')
+        obs['p_rebuilds'] = canonical_rebuilds([rP['trace']])
+        obs['p_statements'] = len(rP['trace'].mutating())
+        obs['p_filter_dropped'] = rP['filter_dropped']
+        obs['p_created_tables'] = rP['created_tables']
+        obs['p_new_models'] = rP['new_models']
+        if rP['ok']:
+            obs['p_snap'] = rP['snap']
+            obs['p_sig'] = rP['sig']
+            obs['p_labels'] = rP['labels']
     return obs
 
 
